@@ -29,6 +29,7 @@ def run(ctx, sess):
     ctx.rule('C11.12', 'upper index levels are keyed by the index below: in the time-series commit the timestamp stored into an entry of the level above is read from an index entry (struct jls_index_entry_s) of the level being committed - the entries that were just written as its INDEX chunk - not from its summary, whose entries are not carried upward at close')
     ctx.rule('C11.13', 'an annotation is delivered from the chunk just read: the annotation reader uses bytes of the read buffer only after a successful checked read on the same path, and through the buffer pointer as it is after that read (shared with C04.8) - a pointer taken before a read that can grow the buffer is stale')
     ctx.rule('C11.14', 'on an index entry equal to the requested timestamp the seek steps back one entry at every index level above 1 (the level condition of the step is evaluated for levels 2..15): the chunk before may end with the same timestamp')
+    ctx.rule('C11.16', 'a level is committed by the commit that fills it: in the time-series commit, every path from the append of an entry to the level above to a successful return passes the test of that level for being full (which leads to its own commit) - a level left full is flushed at close without an entry in a level above (close allocates no level), and the chunk of that level written next cannot be reached from the top')
     ctx.rule('C11.15', 'close writes every level: jls_wr_ts_close commits each index level 1..JLS_SUMMARY_LEVEL_COUNT-1 itself (a level that is empty returns early and cannot be relied upon to pass the close on to the levels above)')
     ctx.rule('C11.6', 'INDEX is immediately followed by its SUMMARY in the time-series writer')
     w = P.fn('jls_wr_annotation')
@@ -160,6 +161,7 @@ def run(ctx, sess):
     upper_key_rule(ctx, P, 'C11.12')
     step_back_rule(ctx, P, 'C11.14')
     close_levels_rule(ctx, P, 'C11.15')
+    eager_commit_rule(ctx, P, 'C11.16')
     from .c04 import _freshness
     from .common import exceptions
     _freshness(ctx, P, exceptions('C04'), rule='C11.13', only=lambda n: 'annotation' in n, minimum=1)
@@ -577,3 +579,45 @@ def close_levels_rule(ctx, P, rule):
                     why = 'levels 1..%d, but the loop is left early (block B%d)' % (hi, early[0])
         ctx.ob(rule, ok, fn.name, 'commit of every level at close', c.where(),
                why if ok else 'close commits %s only: when that level is empty (the number of entries is a multiple of the decimation factor) the commit returns at once and the pending entries of the levels above are never written - the upper indexes miss their last chunk' % why)
+
+
+def eager_commit_rule(ctx, P, rule):
+    fn = P.fn('commit', 'src/wr_ts.c')
+    ctx.saw(fn, 1)
+    # the local that names the level above: a pointer decl initialised from index[level + 1]
+    ups = set()
+    for d in fn.events('decl'):
+        if d.e is not None and (d.t or '').startswith('p:') and any(m.get('op') == 'member' and m.get('field') == 'index' for m in walk(d.e)) and \
+                any(m.get('op') == 'bin' and m['o'] == '+' for m in walk(d.e)):
+            ups.add(d.name)
+    if not ups:
+        raise AnalysisBroken('commit: pointer to the index of the level above not found')
+    appends = []
+    for ev in fn.stores():
+        e = ev.e or {}
+        for m in walk(e):
+            if m.get('op') == 'un' and m.get('o') in ('post++', 'pre++'):
+                t = strip_casts(m['k'][0])
+                if t.get('op') == 'member' and t.get('field') == 'entry_count' and any(x.get('op') == 'ref' and x.get('name') in ups for x in walk(t)):
+                    appends.append(ev)
+    appends = list({id(a): a for a in appends}.values())
+    if not appends:
+        raise AnalysisBroken('commit: append to the index of the level above not found')
+    full_tests = set()
+    for b in fn.blocks.values():
+        c = strip_casts(b.cond) if b.cond is not None else None
+        if c is not None and c.get('op') == 'bin' and c['o'] in ('>=', '>', '<', '<=', '==') and \
+                any(m.get('op') == 'member' and m.get('field') == 'entry_count' and any(x.get('op') == 'ref' and x.get('name') in ups for x in walk(m)) for m in walk(c)) and \
+                any(m.get('op') == 'member' and m.get('field') == 'decimate_factor' for m in walk(c)):
+            # ... whose full edge leads to a commit of the level above
+            if any(c2.callee == fn.name for c2 in fn.calls() if find_path(fn, (b, 0), lambda e2, facts, c2=c2: 'target' if e2 is c2 else None, refine=False) is not None or
+                   find_path(fn, (b, len(b.succs) - 1), lambda e2, facts, c2=c2: 'target' if e2 is c2 else None, refine=False) is not None):
+                full_tests.add(b.id)
+    for a in appends:
+        w = find_path(fn, a, lambda e2, facts: 'target' if (e2.k == 'ret' and ret_class(fn, e2, facts) in ('zero', 'unknown')) else None,
+                      on_block_end=lambda b, facts: 'stop' if b.id in full_tests else None,
+                      start_facts=frozenset((u_, 'ne', 0) for u_ in ups))      # the append went through the pointer: it is not NULL
+        ctx.ob(rule, w is None and bool(full_tests), fn.name, 'the level above is tested for being full after the append', a.where(),
+               'every successful return behind the append passes the test that commits a full level' if (w is None and full_tests) else
+               'an entry is appended to the level above and the commit returns without looking whether that level is full now: the level stays full until the next commit below it, and a track that is closed in that state flushes it without a parent entry - seeks into the chunk written after it start far too early',
+               w.render() if w else None)
